@@ -122,6 +122,16 @@ fn sub_of(ctx: &str, p: &Parsed) -> Option<Tm> {
         ("infix-right", Parsed::Goal(g)) | ("cmp-right", Parsed::Goal(g)) => garg(g, 1),
         ("rule-head", Parsed::Rule(h, _)) => arg(&tm_from_json(h), 0),
         ("rule-body", Parsed::Rule(_, b)) => garg(b, 0),
+        ("complex-arg-compact", Parsed::Term(t)) | ("list-first-compact", Parsed::Term(t)) => arg(t, 0),
+        ("complex-last-compact", Parsed::Term(t)) | ("complex-mid", Parsed::Term(t)) | ("complex-mid-compact", Parsed::Term(t))
+        | ("list-last-compact", Parsed::Term(t)) | ("list-mid", Parsed::Term(t)) | ("list-before-tail", Parsed::Term(t))
+        | ("function-arg", Parsed::Term(t)) | ("function-arg-compact", Parsed::Term(t)) => arg(t, 1),
+        ("builtin-last", Parsed::Goal(g)) | ("builtin-last-compact", Parsed::Goal(g))
+        | ("query-last", Parsed::Goal(g)) | ("query-last-compact", Parsed::Goal(g)) => garg(g, 1),
+        ("nested-arg", Parsed::Term(t)) => arg(t, 0).and_then(|x| arg(&x, 0)),
+        ("nested-last-compact", Parsed::Term(t)) => arg(t, 1).and_then(|x| arg(&x, 1)),
+        ("rule-head-last-compact", Parsed::Rule(h, _)) => arg(&tm_from_json(h), 1),
+        ("rule-body-last-compact", Parsed::Rule(_, b)) => garg(b, 1),
         _ => None,
     }
 }
